@@ -156,7 +156,7 @@ type run struct {
 	res   string
 }
 
-func runAll(c *Case, text []byte, senTxt []byte) []run {
+func runAll(c *Case, text []byte, senTxt, senSq []byte) []run {
 	ts := c.Targets
 	var out []run
 	add := func(entry, fam string, f func(col *collector) error) {
@@ -176,7 +176,7 @@ func runAll(c *Case, text []byte, senTxt []byte) []run {
 	h.Write([]byte(targetsText(ts)))
 	k := int(h.Sum32() >> 2)
 	// the whole battery on every case in the thorough tier, on a quarter of the cases otherwise
-	heavy := *tier == "thorough" || k%4 == 0 || c.Stream == "boundary" || c.Stream == "replay" || c.Stream == "corpus"
+	heavy := *tier == "thorough" || k%4 == 0 || c.Stream == "boundary" || c.Stream == "quotes" || c.Stream == "replay" || c.Stream == "corpus"
 	if len(text) > 1 {
 		if heavy && len(text) <= 24 {
 			for i := 1; i < len(text); i++ {
@@ -210,11 +210,46 @@ func runAll(c *Case, text []byte, senTxt []byte) []run {
 			return oj.MatchLoad(&chunkReader{data: padded}, col.onData, exprs(ts)...)
 		})
 	}
+	// a byte order mark in front of the document, the reader cut after and inside it
+	bom := append([]byte{0xEF, 0xBB, 0xBF}, text...)
+	add("oj.Match/bom", "oj", func(col *collector) error { return oj.Match(bom, col.onData, exprs(ts)...) })
+	bomLoad := func(name string, chunks []int) {
+		add("oj.MatchLoad/bom/"+name, "oj", func(col *collector) error {
+			return oj.MatchLoad(&chunkReader{data: append([]byte{}, bom...), chunks: chunks}, col.onData, exprs(ts)...)
+		})
+	}
+	bomLoad("1-byte", []int{-1})
+	bomLoad("3", []int{3})
+	if heavy {
+		bomLoad("whole", nil)
+		bomLoad("1,2", []int{1, 2})
+		bomLoad("2,1", []int{2, 1})
+		bomLoad("3,1", []int{3, 1})
+		bomLoad("2", []int{2})
+		bomLoad("4", []int{4})
+	}
 	add("sen.Match", "sen", func(col *collector) error { return sen.Match(text, col.onData, exprs(ts)...) })
 	add("sen.Match/sen-text", "sen", func(col *collector) error { return sen.Match(senTxt, col.onData, exprs(ts)...) })
-	add("sen.MatchLoad/1-byte", "sen", func(col *collector) error {
-		return sen.MatchLoad(&chunkReader{data: append([]byte{}, text...), chunks: []int{-1}}, col.onData, exprs(ts)...)
-	})
+	add("sen.Match/sen-single-quoted", "sen", func(col *collector) error { return sen.Match(senSq, col.onData, exprs(ts)...) })
+	senLoad := func(name string, in []byte, chunks []int) {
+		add("sen.MatchLoad/"+name, "sen", func(col *collector) error {
+			return sen.MatchLoad(&chunkReader{data: append([]byte{}, in...), chunks: chunks}, col.onData, exprs(ts)...)
+		})
+	}
+	senLoad("1-byte", text, []int{-1})
+	senLoad("sen-single-quoted/whole", senSq, nil)
+	if len(senSq) > 1 {
+		senLoad(fmt.Sprintf("sen-single-quoted/split@%d", 1+k%(len(senSq)-1)), senSq, []int{1 + k%(len(senSq)-1)})
+	}
+	if heavy {
+		senLoad("sen-single-quoted/1-byte", senSq, []int{-1})
+		senLoad("sen-text/1-byte", senTxt, []int{-1})
+		senLoad("sen-text/3-byte", senTxt, []int{-3})
+		add("sen.Match/bom", "sen", func(col *collector) error { return sen.Match(bom, col.onData, exprs(ts)...) })
+		senLoad("bom/1-byte", bom, []int{-1})
+		senLoad("bom/3", bom, []int{3})
+		senLoad("bom/1,2", bom, []int{1, 2})
+	}
 	return out
 }
 
@@ -310,6 +345,7 @@ type caseRun struct {
 	c      *Case
 	text   []byte
 	senTxt []byte
+	senSq  []byte
 	doc    string
 	tgs    string
 	runs   []run
@@ -330,9 +366,12 @@ func prepare(c *Case, reqs *[]string) *caseRun {
 	}
 	cr := &caseRun{c: c, text: []byte(c.Doc.json(ws)), doc: c.Doc.canonText(), tgs: targetsText(c.Targets)}
 	var sb strings.Builder
-	c.Doc.senText(&sb)
+	c.Doc.senText(&sb, false)
 	cr.senTxt = []byte(sb.String())
-	cr.runs = runAll(c, cr.text, cr.senTxt)
+	var sq strings.Builder
+	c.Doc.senText(&sq, true)
+	cr.senSq = []byte(sq.String())
+	cr.runs = runAll(c, cr.text, cr.senTxt, cr.senSq)
 	cr.expOj, cr.okOj, cr.whyOj = expectation(c, cr.text, "oj")
 	cr.expSen, cr.okSen, _ = expectation(c, cr.text, "sen")
 	*reqs = append(*reqs, "run\t"+*devArg+"\t"+cr.tgs+"\t"+cr.doc)
@@ -350,7 +389,7 @@ func (cr *caseRun) replayOf(extra map[string]any) map[string]any {
 		ts[i] = t.expr().String()
 	}
 	m := map[string]any{"doc": cr.doc, "targets": cr.tgs, "wseed": fmt.Sprint(cr.c.WSeed), "stream": cr.c.Stream,
-		"json_hex": lib.HexF(cr.text), "json": string(cr.text), "targets_jsonpath": ts}
+		"json_hex": lib.HexF(cr.text), "json": string(cr.text), "sen_single_quoted": string(cr.senSq), "targets_jsonpath": ts}
 	for k, v := range extra {
 		m[k] = v
 	}
@@ -799,6 +838,9 @@ func main() {
 	if on("rand") {
 		randomCases(full, rng.Fork(2), emit)
 	}
+	if on("quotes") {
+		quoteCases(emit)
+	}
 	if on("dup") {
 		dupKeyCases(full, rng.Fork(3), emit)
 	}
@@ -811,7 +853,7 @@ func main() {
 		fmt.Fprintln(os.Stderr, "harness failure:", e)
 		os.Exit(3)
 	}
-	rep.Rule = "cases (document tree with known member order written as JSON text, 1-3 target paths): corpus; boundary families (nested arrays/maps, index bookkeeping after a container closes, empty containers, overlapping and nested targets, filters, slices, from-the-end indexes); exhaustive boxes of small documents times all short targets and target pairs; seeded random documents with targets generalised from the document's own locations (child, index, wildcard, union, slice, descent, trailing filter; nested pairs); documents with a repeated member name (model vs code only). Each case runs oj.Match, oj.MatchString, oj.MatchLoad (whole, 1-byte, 3-byte, every 2-chunk split of short texts, a 4096 read-buffer boundary moved through the text), sen.Match on the JSON and the SEN text, sen.MatchLoad byte by byte; duplicates (same document, targets, white space) are dropped; distinct_nontrivial counts cases whose expectation has at least one callback; PathMatch cases count one each"
+	rep.Rule = "cases (document tree with known member order written as JSON text, 1-3 target paths): corpus; boundary families (nested arrays/maps, index bookkeeping after a container closes, empty containers, overlapping and nested targets, filters, slices, from-the-end indexes); exhaustive boxes of small documents times all short targets and target pairs; seeded random documents with targets generalised from the document's own locations (child, index, wildcard, union, slice, descent, trailing filter; nested pairs); documents with a repeated member name (model vs code only). Each case runs oj.Match, oj.MatchString, oj.MatchLoad (whole, 1-byte, 3-byte, every 2-chunk split of short texts, a 4096 read-buffer boundary moved through the text), the same text behind a byte order mark through oj.Match and oj.MatchLoad with the reader cut inside and right after the mark (1-byte, 3, 1+2, 2+1, 3+1, 2, 4), sen.Match on the JSON text, on the SEN text (bare names, no commas) and on the SEN text with strings and names between single quotes, sen.MatchLoad byte by byte, on the single-quoted text whole/split/byte by byte, and behind a byte order mark; a stream of strings and member names holding the other quote character; duplicates (same document, targets, white space) are dropped; distinct_nontrivial counts cases whose expectation has at least one callback; PathMatch cases count one each"
 	if err := rep.Write(*outPath); err != nil {
 		fmt.Fprintln(os.Stderr, err)
 		os.Exit(3)
